@@ -1004,6 +1004,19 @@ Section Run.
     apply safe_consistent; auto.
   Qed.
 
+  Theorem pool_crash_consistent_expected h k l f m :
+    history_avoids fk h = true ->
+    lists_world l (crash (rs_log (run_pool fk scale h)) k) -> l <> [] ->
+    check_loop fk l (Some f) false = COk (Some m) ->
+    m = f /\
+    exists rc, In rc (rs_recs (run_pool fk scale h)) /\ (r_pos rc <= k)%nat /\ m = mark_of CLEAN (r_id rc) /\
+      forall n c, wget n (crash (rs_log (run_pool fk scale h)) k) = Some c ->
+        match wget n (r_snap rc) with Some s => db_eq c s | None => db_empty c end.
+  Proof.
+    intros Ha L Hne E. destruct (run_pool_inv h Ha) as [_ [_ [_ [Hs _]]]].
+    eapply safe_consistent_expected; eauto.
+  Qed.
+
   (* the other direction: right after a completed flush the recovery reports exactly that flush *)
   Theorem pool_flush_reported h rc l :
     history_avoids fk h = true -> In rc (rs_recs (run_pool fk scale h)) ->
